@@ -201,6 +201,8 @@ class C20(Check):
                     return f"{f}({order(e.args[0], defs, p0)})" + ("" if not e.keywords else "[" + ",".join(norm(k) for k in e.keywords) + "]")
                 if f == "zip" and e.args:
                     return order(e.args[0], defs, p0)
+            if isinstance(e, (ast.List, ast.Tuple)) and len(e.elts) == 1 and isinstance(e.elts[0], ast.Starred):
+                return order(e.elts[0].value, defs, p0)
             if isinstance(e, (ast.ListComp, ast.GeneratorExp, ast.DictComp)) and len(e.generators) == 1:
                 g = e.generators[0]
                 o = order(g.iter, defs, p0)
@@ -533,6 +535,8 @@ class C20(Check):
 
     def must_stay_silent(self):
         return [
+            Variant("names-by-unpacking", "minimizers/_scipy.py", "LocalScipyMinimizer.__call__", "par_names = list(p0.keys())", "par_names = [*p0]", quick=True),
+            Variant("x0-from-names", "minimizers/_scipy.py", "LocalScipyMinimizer.__call__", "x0=list(p0.values())", "x0=[p0[n] for n in par_names]", quick=True),
             Variant("mse-pow-form", LOSSES, "mean_squared", "np.square(y_pred - y_true)", "(y_pred - y_true) ** 2", quick=True),
             Variant("mae-swapped-difference", LOSSES, "mae", "np.abs(y_true - y_pred)", "np.abs(y_pred - y_true)"),
             Variant("separate-copy-variable", ROUT, "steady_state", "    if as_deepcopy:\n        model = deepcopy(model)\n", "    model = deepcopy(model) if as_deepcopy else model\n"),
